@@ -1084,6 +1084,13 @@ def rule_wrap_tokens(ctx):
     tw = [c for f in fam for c in walk_shallow(f.node) if isinstance(c, ast.Call) and "TextWrapper" in ast.unparse(c.func)]
     site = "writer.write#textwrapper"
     if not tw:
+        # the module-level function form: textwrap.wrap(text, width=.., break_long_words=False, ..) takes the same options
+        tw = [c for f in fam for c in walk_shallow(f.node) if isinstance(c, ast.Call) and ast.unparse(c.func) in ("textwrap.wrap", "textwrap.fill")]
+        for c in tw:
+            c_ = ast.Call(func=c.func, args=list(c.args[1:]), keywords=list(c.keywords))       # drop the text argument
+            ast.copy_location(c_, c)
+            tw[tw.index(c)] = c_
+    if not tw:
         # no TextWrapper: wrapping done otherwise - check there is a wrap call at all
         wr = [c for f in fam for c in walk_shallow(f.node) if isinstance(c, ast.Call) and isinstance(c.func, ast.Attribute) and c.func.attr in ("wrap", "fill")]
         ctx.check(False if not wr else True, "WR.WRAP-TOKENS", site, fw, fw.node, "wrapping present",
@@ -1352,6 +1359,12 @@ def rule_wrap_consistent(ctx):
                     if isinstance(cur, ast.If):
                         guards.append((cur.test, child in cur.body))
                     child, cur = cur, getattr(cur, "_parent", None)
+                norm = []
+                for t_, pol_ in guards:
+                    while isinstance(t_, ast.UnaryOp) and isinstance(t_.op, ast.Not):
+                        t_, pol_ = t_.operand, not pol_
+                    norm.append((t_, pol_))
+                guards = norm
                 ok = len(guards) == 1 and guards[0][1] and isinstance(guards[0][0], ast.Name) and "wrap" in guards[0][0].id
                 ctx.check(ok, "WR.WRAP-CONSISTENT", "writer.write#wrap-branch", f, c,
                           "rows are wrapped exactly when `wrap` is set (the value the WRAP item is written from)",
@@ -1364,6 +1377,29 @@ def rule_wrap_consistent(ctx):
                 and isinstance(s_.targets[0].slice, ast.Constant) and s_.targets[0].slice.value == "WRAP" and isinstance(s_.value, ast.Call):
             vals = [a.value for a in s_.value.args if isinstance(a, ast.Constant)] + [k.value.value for k in s_.value.keywords if isinstance(k.value, ast.Constant)]
             state = "YES" if "YES" in vals else ("NO" if "NO" in vals else None)
+            # `las.version["WRAP"] = deepcopy(TABLE[wrap])`: TABLE a module-level {True: HeaderItem(.. "YES" ..), False: .. "NO" ..}
+            tsub = next((x for x in ast.walk(s_.value) if isinstance(x, ast.Subscript) and isinstance(x.slice, ast.Name) and x.slice.id == "wrap"
+                         and isinstance(x.value, (ast.Name, ast.Dict))), None)
+            if state is None and tsub is not None:
+                tab = tsub.value
+                if isinstance(tab, ast.Name):
+                    gv = fw.module.globals.get(tab.id, [])
+                    tab = gv[0] if len(gv) == 1 else None
+                mapping = {}
+                if isinstance(tab, ast.Dict):
+                    for k_, v_ in zip(tab.keys, tab.values):
+                        cs = [a.value for a in ast.walk(v_) if isinstance(a, ast.Constant) and a.value in ("YES", "NO")]
+                        if isinstance(k_, ast.Constant) and isinstance(k_.value, bool) and len(cs) == 1:
+                            mapping[k_.value] = cs[0]
+                n += 1
+                if mapping:
+                    ctx.check(mapping == {True: "YES", False: "NO"}, "WR.WRAP-CONSISTENT", "writer.write#WRAP-item(table)", fw, s_,
+                              "the WRAP item comes from a table that maps wrap=True to YES and wrap=False to NO",
+                              "the WRAP item table maps %s: the header item and the physical layout disagree" % mapping)
+                else:
+                    ctx.undecided("WR.WRAP-CONSISTENT", "writer.write#WRAP-item(table)", fw, s_, "the WRAP item is taken from `%s`, which is "
+                                  "not a literal {True: .., False: ..} table of items" % unparse(tsub))
+                continue
             iff = enclosing(s_, (ast.If,))
             t = iff.test if iff is not None else None
             want = None
@@ -1486,6 +1522,23 @@ def rule_engine_select(ctx):
     The switch to engine = "normal" is controlled by a disjunction that contains `<WRAP value> == "YES"`."""
     p = ctx.p
     fr = host_data(p)
+    # a steering flag kept as a boolean must be used as one: `flag == "YES"` on a variable that only ever holds True/False is
+    # always false (the leftover of a string -> boolean refactoring), and whatever it guarded never happens
+    bdefs = {}
+    for a_ in walk_shallow(fr.node):
+        if isinstance(a_, ast.Assign) and len(a_.targets) == 1 and isinstance(a_.targets[0], ast.Name):
+            v_ = a_.value
+            is_bool = (isinstance(v_, ast.Constant) and isinstance(v_.value, bool)) or isinstance(v_, (ast.Compare, ast.BoolOp)) or (
+                isinstance(v_, ast.UnaryOp) and isinstance(v_.op, ast.Not))
+            bdefs.setdefault(a_.targets[0].id, []).append(is_bool and not (isinstance(v_, ast.BoolOp) and not all(
+                isinstance(x, (ast.Compare, ast.Constant)) or (isinstance(x, ast.UnaryOp) and isinstance(x.op, ast.Not)) for x in v_.values)))
+    bools = {k for k, v in bdefs.items() if v and all(v)} - set(fr.params())
+    for c_ in walk_shallow(fr.node):
+        if isinstance(c_, ast.Compare) and len(c_.ops) == 1 and isinstance(c_.ops[0], (ast.Eq, ast.NotEq)) and isinstance(c_.left, ast.Name) \
+                and c_.left.id in bools and isinstance(c_.comparators[0], ast.Constant) and isinstance(c_.comparators[0].value, str):
+            ctx.bad("DATA.ENGINE-SELECT", READ + "#flag-type", fr, c_, "`%s` compares the boolean `%s` with a string: it is always %s, so what it "
+                    "guards (the switch to the reference engine for a wrapped file, the declared column count) never takes effect"
+                    % (unparse(c_), c_.left.id, "False" if isinstance(c_.ops[0], ast.Eq) else "True"))
     wv = _wrap_var(fr)
     site = READ + "#engine-for-wrapped"
     if wv is None:
